@@ -64,4 +64,47 @@ def Read.check (r : Read) : Bool :=
   else
     r.facts.any (fun f => match f with | .iLtDiv c d => decide (d = r.a ∧ 0 < d ∧ r.b < c + d) && r.facts.any (fun g => match g with | .lenGe n => decide (c ≤ n) | _ => false) | _ => false)
 
+/-! ## index expressions into the database table `….dbs[e]` -/
+
+/-- why an index expression into `dbs` is in range (classified by go/extract/dbsindex.go) -/
+inductive DbsKind
+  /-- the index has type uint8 -/
+  | u8
+  /-- the index is the key of `for i := range ….dbs` -/
+  | range
+  /-- a wider index, after `if e >= uint32(len(….dbs)) { return … }` -/
+  | guarded
+  /-- a wider index without such a guard -/
+  | unguarded
+  | unknown
+  deriving DecidableEq, Repr
+
+structure DbsRead where
+  fn : String
+  file : String
+  line : Nat
+  expr : String
+  kind : DbsKind
+  deriving Repr
+
+/-- what the classification guarantees about the run-time index `idx` into a table of `len` slots -/
+def DbsKind.premise (len idx : Nat) : DbsKind → Prop
+  | .u8 => idx < 256
+  | .range => idx < len
+  | .guarded => ¬ (idx ≥ len)
+  | .unguarded => True
+  | .unknown => True
+
+/-- in range for every index value the classification admits, given the table size -/
+def DbsRead.safe (size : Nat) (r : DbsRead) : Prop :=
+  ∀ idx : Nat, r.kind.premise size idx → idx < size
+
+def DbsRead.check (size : Nat) (r : DbsRead) : Bool :=
+  match r.kind with
+  | .u8 => decide (256 ≤ size)
+  | .range => true
+  | .guarded => true
+  | .unguarded => false
+  | .unknown => false
+
 end Slock.TextH
